@@ -43,6 +43,9 @@ pub struct GraphDesc {
     /// between the checker's own steps)
     #[serde(default)]
     pub yield_in_model: bool,
+    /// `next_state` sleeps this many microseconds (keeps a worker busy so that requests queue up)
+    #[serde(default)]
+    pub slow_us: u32,
 }
 
 #[derive(Clone, Debug, Hash, PartialEq, Eq, PartialOrd, Ord)]
@@ -114,6 +117,9 @@ impl Model for GM {
     fn next_state(&self, s: &S, a: u16) -> Option<S> {
         if self.d.yield_in_model {
             stateright::verif_hooks::yield_point("model.next_state");
+        }
+        if self.d.slow_us > 0 {
+            std::thread::sleep(std::time::Duration::from_micros(self.d.slow_us as u64));
         }
         if self.d.panic_at == Some(s.0) {
             panic!("planted panic in model code at state {}", s.0);
@@ -658,6 +664,7 @@ pub fn build_graph(
         panic_at: None,
         shape: format!("{:?}", shape),
         yield_in_model: false,
+        slow_us: 0,
     }
 }
 
@@ -704,5 +711,6 @@ pub fn big_graph(seed: u64, n: u32, deg: u32, props: Vec<PropDesc>) -> GraphDesc
         panic_at: None,
         shape: "Big".to_string(),
         yield_in_model: false,
+        slow_us: 0,
     }
 }
